@@ -1,4 +1,5 @@
 (* Property C19 (PARTIAL) - allocation failure yields a clean error, never a crash.
+   Only statements closed by `exact`; the proofs live in Res/ResProofs.v.
    What is proved: over the translator-generated table of ALL allocation sites of the library
    (Gen/AllocSites.v, regenerated from the C sources on every run) every site outside `known_open`
    tests the result for NULL before its first use, and such a site never dereferences NULL and takes
@@ -25,26 +26,23 @@ Print Assumptions c19_unguarded_faults.
    and every key listed as open names an existing site that is indeed unguarded (no stale exemptions) *)
 Theorem c19_table_wellformed :
   nodup_keys nil sites = true /\ length sites = n_sites /\ 200 <= n_sites /\ known_open_are_unguarded_sites = true.
-Proof. vm_compute. repeat split; try reflexivity. repeat constructor. Qed.
+Proof. exact table_wellformed. Qed.
 Print Assumptions c19_table_wellformed.
 
 (* the table: every allocation site of the current sources, minus the open known findings, is guarded.
    A removed NULL check or a new unchecked allocation changes Gen/AllocSites.v and breaks this proof. *)
 Theorem c19_sites_guarded : forallb guarded checked_sites = true.
-Proof. vm_compute. reflexivity. Qed.
+Proof. exact sites_guarded. Qed.
 Print Assumptions c19_sites_guarded.
 
 (* consequence for every site of the library outside known_open *)
 Theorem c19_no_site_faults : forall s, In s sites -> known_open s = false -> alloc_failure_clean s.
-Proof.
-  intros s Hin Hk. apply (forallb_guarded_all checked_sites c19_sites_guarded).
-  unfold checked_sites. apply filter_In. split; [assumption | rewrite Hk; reflexivity].
-Qed.
+Proof. exact no_site_faults. Qed.
 Print Assumptions c19_no_site_faults.
 
 (* the exempted sites are real violations of the site spec (no guarded site hides in the exemption list):
    the full statement c19_table_statement fails exactly on them *)
 Theorem c19_known_open_sites_fault : forall s, In s sites -> known_open s = true ->
   exists k, run_site s None = Fault k.
-Proof. apply open_sites_fault. vm_compute. reflexivity. Qed.
+Proof. exact known_open_sites_fault. Qed.
 Print Assumptions c19_known_open_sites_fault.
